@@ -283,6 +283,14 @@ pub fn palette(bk: BK, ctx: &mut Ctx) -> Vec<Op> {
             Op::Param(-4, Item::bytes(&[4])),
             Op::Param(-70000, Item::Null),
             Op::Param(i64::MAX, Item::Null),
+            // what real keys carry: a curve identifier and 32 / 56 / 57 / 66-byte strings with every bit pattern
+            Op::Param(-1, Item::int(4)),
+            Op::Param(-1, Item::int(6)),
+            Op::Param(-2, Item::Bytes(vec![0xff; 32])),
+            Op::Param(-2, Item::Bytes((0..32).map(|i| 0x80 | i as u8).collect())),
+            Op::Param(-4, Item::Bytes(vec![0xfe; 32])),
+            Op::Param(-2, Item::Bytes(vec![0xff; 57])),
+            Op::Param(-3, Item::Bytes(vec![0x80; 66])),
         ],
         BK::Claims => vec![
             Op::Issuer("i".into()),
@@ -307,6 +315,11 @@ pub fn palette(bk: BK, ctx: &mut Ctx) -> Vec<Op> {
             Op::Claim(4, Item::int(1)),
             Op::Claim(7, Item::bytes(&[1])),
             Op::Claim(8, Item::Map(vec![])),
+            // values that happen to be encoded CBOR of a familiar shape stay what they are
+            Op::Claim(8, Item::Bytes(vec![0xa1, 0x01, 0x04])),
+            Op::Claim(8, Item::Bytes(vec![0xa2, 0x01, 0x02, 0x20, 0x01])),
+            Op::Claim(38, Item::Bytes(vec![0x84, 0x40, 0xa0, 0xf6, 0x40])),
+            Op::TextClaim("cnf".into(), Item::Bytes(vec![0xa1, 0x01, 0x04])),
             Op::Claim(9, Item::text("scope")),
             Op::Claim(38, Item::int(1)),
             Op::Claim(-260, Item::bytes(&[2])),
@@ -365,6 +378,8 @@ fn random_op(bk: BK, ctx: &mut Ctx) -> Op {
             Op::Audience(_) => Op::Audience(gen::pal_text(&mut ctx.rng)),
             Op::TextValue(_, v) => Op::TextValue(gen::pal_text(&mut ctx.rng), v),
             Op::TextClaim(_, v) => Op::TextClaim(gen::pal_text(&mut ctx.rng), v),
+            Op::Param(l, Item::Bytes(_)) if ctx.rng.coin() => Op::Param(l, Item::Bytes(if ctx.rng.coin() { gen::structured_bytes(&mut ctx.rng) } else { let n = *ctx.rng.pick(&[16usize, 32, 48, 56, 57, 66]); ctx.rng.bytes(n) })),
+            Op::Claim(l, Item::Bytes(_)) if ctx.rng.coin() => Op::Claim(l, Item::Bytes(gen::structured_bytes(&mut ctx.rng))),
             Op::Value(_, v) => Op::Value(if ctx.rng.coin() { ctx.rng.range(-3, 12) } else { gen::pal_i64(&mut ctx.rng) }, v),
             Op::Param(_, v) => Op::Param(if ctx.rng.coin() { ctx.rng.range(-6, 9) } else { gen::pal_i64(&mut ctx.rng) }, v),
             Op::Claim(_, v) => Op::Claim(*ctx.rng.pick(&registry::values(Reg::CwtClaimName)), v),
@@ -898,9 +913,30 @@ pub fn run_seq(ctx: &mut Ctx, bk: BK, ops: &[Op]) {
                 4 | 6 => 32,
                 _ => 57,
             };
-            let mut coord = |ctx: &mut Ctx, short: Vec<u8>| -> Vec<u8> {
+            let coord = |ctx: &mut Ctx, short: Vec<u8>| -> Vec<u8> {
                 if ctx.rng.chance(1, 3) {
                     return short;
+                }
+                if ctx.rng.chance(1, 6) {
+                    // nothing at all, or a whole SEC1 point where one coordinate is expected
+                    return match ctx.rng.below(4) {
+                        0 => vec![],
+                        1 => {
+                            let mut v = vec![0x04];
+                            v.extend(ctx.rng.bytes(2 * field));
+                            v
+                        }
+                        2 => {
+                            let mut v = vec![0x02 + ctx.rng.below(2) as u8];
+                            v.extend(ctx.rng.bytes(field));
+                            v
+                        }
+                        _ => {
+                            let mut v = vec![0x04];
+                            v.extend(ctx.rng.bytes(64));
+                            v
+                        }
+                    };
                 }
                 let n = if ctx.rng.coin() { (field as i64 + ctx.rng.range(-2, 3)) as usize } else { *ctx.rng.pick(&[0usize, 1, 2, 3, 16, 31, 32, 33, 34, 47, 48, 49, 64, 65, 66, 67, 68, 132]) };
                 let mut v = ctx.rng.bytes(n);
